@@ -517,7 +517,11 @@ def runSection (r : Report) (s : Section) : Report := Id.run do
     | "route" :: args =>
       match arg "m=" args, arg "p=" args, (arg "h=" args).bind parseItem with
       | some m, some p, some item =>
-        let res := st.pr.handle m p item
+        -- `Handle` with the in-place mutation visible (PropsReject: a rejected call leaves every tree as it was)
+        let resM := handleM st.pr.core m p item
+        let res : Except HandleErr PatRouter := match resM.2 with
+          | none => .ok { st.pr with core := resM.1 }
+          | some e => .error e
         let (sv, tbl') := Spec.register st.tbl m p item
         let (implClean, implRes) := match l.obs with
           | [c, v] => ((String.ofList (c.toList.drop 6)), v)
@@ -531,9 +535,7 @@ def runSection (r : Report) (s : Section) : Report := Id.run do
         if fres ≠ implRes then r := r.mismatch s.idx l.idx fres implRes
         if fmtSpecReg sv ≠ implRes then
           r := r.violation s.idx l.idx s!"registration of {m} {p}: property demands [{fmtSpecReg sv}] implementation did [{implRes}]"
-        match res with
-        | .ok pr' => st := { st with pr := pr' }
-        | .error _ => pure ()
+        st := { st with pr := { st.pr with core := resM.1 } }
         -- class of seeded change C09-9: the same (method, cleaned pattern) again with a DIFFERENT handler
         if sv = .dup ∧ rooted p then
           let pats := cleanToks p
